@@ -75,10 +75,13 @@ def run(ck):
                        "a mid-write crash is produced by the hook writing the first half of the bytes before the kill",
                        "user names over {A,a,b}, passwords {p1,p2}, pull right {'', '/a/*'}; rights compared modulo 'administrator with empty right gets *'"]
 
+    # the management API (administrative delete / stop, listings, table edits, who may call what)
+    from checks import api_common
+    api_common.api_leg(ck, "C18")
 
 META = {
     "text": "TLC enumerates all histories (save/update/delete/flush/restart, length <= 2 quick / 3 thorough, plus simulated length-9 histories) of the user-table and route-table specifications and the crash model of a flush (every file-system step, crash after each, both initial file states); histories are replayed on the real provider/auth and provider/route with the real JSON providers and compared after every step; for every crash point x sampled history a child process is SIGKILLed at the matching hook in EncodeJSONFile and a fresh load must yield the previous or the new table.",
     "note": "Trusted: TLC, the transcription of the statement in UserTable.tla/RouteTable.tla/Durable.tla, the verif hooks json.* in utils/io.go as crash points. Power-loss semantics (unsynced pages) are out of reach.",
     "technique": "TLA+ reference models of the tables and of the flush's file-system steps; TLC-generated histories and crash plans replayed on the real code (child process killed at hook points)",
-    "specs": ["tables"],
+    "specs": ["api", "tables"],
 }
